@@ -107,6 +107,11 @@ type Sched struct {
 	mem     func() string // abstract memory state (call records), read while everything is parked
 	trace   bool
 	abort   bool
+	// focus: gates on locks/locations of methods outside the scenario are
+	// passed without parking whenever they are enabled (fewer interleavings,
+	// still only real behaviours); nil = everything is a preemption point
+	focusLock func(l *lockState) bool
+	focusAddr func(addr, size uintptr) bool
 }
 
 type abortSentinel struct{}
@@ -150,6 +155,13 @@ func (s *Sched) park(gt gate) {
 		return
 	}
 	g.at = gt
+	if (gt.lock != nil && s.focusLock != nil && !s.focusLock(gt.lock)) ||
+		((gt.kind == gYieldR || gt.kind == gYieldW) && s.focusAddr != nil && !s.focusAddr(gt.addr, gt.size)) {
+		if s.enabled(g) {
+			s.apply(g)
+			return
+		}
+	}
 	s.toSched <- g
 	<-g.resume
 	if s.abort {
